@@ -1453,8 +1453,12 @@ func main() {
 		if T == 0 || res.Outcome == "cancelled" || T > 20000 {
 			continue
 		}
+		every := uint64(*cancelEvery)
+		if T/every > 1200 { // long runs: at most about 1200 cut points each
+			every = T/1200 + 1
+		}
 		for n := uint64(1); n <= T; n++ {
-			if *cancelEvery > 1 && !(n <= 2 || n == T || int((n+uint64(i))%uint64(*cancelEvery)) == 0) {
+			if every > 1 && !(n <= 2 || n == T || (n+uint64(i))%every == 0) {
 				continue
 			}
 			r2, ok := runScenario(prog, sc.kinds, sc.frozen, sc.sizes, n)
